@@ -422,5 +422,13 @@ class Child:
 
 
 def run(task):
+    # a pathological input can make the repair step's subgraph search eat memory by the gigabyte before the per-run
+    # budget expires: bound the address space of this simulated process (the run then ends with a MemoryError outcome)
+    try:
+        import resource
+        limit = 10 * 1024 ** 3
+        resource.setrlimit(resource.RLIMIT_AS, (limit, limit))
+    except Exception:
+        pass
     child = Child(task)
     return child.run()
